@@ -249,41 +249,54 @@ func Tokenize(source string) ([]Token, error) {
 		ogColumn := column
 
 		if raw := c0 == "`"; raw || c0 == `"` {
-			// Evaluate string.
-			str := ""
-			i++
+			// Evaluate string. Find the end of the literal first (escaped characters are skipped in interpreted strings).
+			end := -1
 
-			for i < sourceLength {
-				c0 = char(source, i)
-				appended := false
+			for j := i + 1; j < sourceLength; j++ {
+				c := source[j]
 
-				if match := regexp.MustCompile(`^\\.`).FindString(source[i:]); !raw && match != "" {
-					// Convert escaped character to be a control character (https://pkg.go.dev/strconv#Unquote).
-					parsed, err := strconv.Unquote(fmt.Sprintf(`"%s"`, match))
-
-					if err != nil {
-						return nil, fmt.Errorf(`invalid escape sequence "%s"`, match)
-					}
-					str += parsed
-					i += len(match)
-					appended = true
-				} else if (raw && c0 == "`") || (!raw && c0 == `"`) {
-					// Detected string end.
-					i++
-					token = newToken(str, STRING_LITERAL, ogRow, ogColumn)
+				if !raw && c == '\\' {
+					j++ // Skip escaped character.
+				} else if (raw && c == '`') || (!raw && c == '"') {
+					end = j
 					break
-				}
-
-				if !appended {
-					str += c0
-					i++
 				}
 			}
 
-			if token.tokenType == UNKNOWN {
+			if end < 0 {
 				err = fmt.Errorf("string at row %d, column %d has not been terminated", ogRow, ogColumn)
 				break
 			}
+			str := source[i+1 : end]
+
+			// Escape sequences of interpreted strings are decoded like in Go (https://pkg.go.dev/strconv#UnquoteChar),
+			// all other bytes (also those of UTF-8 encoded characters) are taken as they are.
+			if !raw {
+				decoded := []byte{}
+
+				for rest := str; len(rest) > 0; {
+					if rest[0] != '\\' {
+						decoded = append(decoded, rest[0])
+						rest = rest[1:]
+						continue
+					}
+					value, multibyte, tail, errTemp := strconv.UnquoteChar(rest, '"')
+
+					if errTemp != nil {
+						return nil, fmt.Errorf(`invalid escape sequence in string at row %d, column %d`, ogRow, ogColumn)
+					}
+
+					if multibyte {
+						decoded = append(decoded, string(value)...)
+					} else {
+						decoded = append(decoded, byte(value))
+					}
+					rest = tail
+				}
+				str = string(decoded)
+			}
+			token = newToken(str, STRING_LITERAL, ogRow, ogColumn)
+			i = end + 1
 		} else if matches := regexp.MustCompile(`(?s)^\/\*(.*)\*\/`).FindStringSubmatch(source[i:]); matches != nil {
 			// Multiline comment.
 			token = newToken(matches[1], COMMENT, ogRow, ogColumn)
